@@ -150,6 +150,27 @@ def run_cell(cell, rec, seed):
                                 rec.close("measure.product", gp, lu.sum(0, keepdims=True),
                                           ns=au.sum(0, keepdims=True), detail=info,
                                           mech=f"measure-product-value:{mk}")
+                        # history: product() once more after the measure was normalised in place
+                        # (only ln_beta changes): must be the product of the normalised components
+                        if cache == "filled" and not mk.endswith("pdf"):
+                            L_ = build.lib()
+                            cls_ = L_.measure.GaussianDiagMeasure if mk.startswith("diag") \
+                                else L_.measure.GaussianMeasure
+                            un = cls_(Lambda=J(tu.Lambda), nu=J(tu.nu), ln_beta=J(tu.ln_beta))
+                            un.integrate()
+                            _call(rec, "measure.product", lambda: un.product(), info)
+                            _call(rec, "normalize", lambda: un.normalize(), info)
+                            pn = _call(rec, "measure.product", lambda: un.product(), info)
+                            if pn is not None:
+                                lbn = -orc.gauss_lnZ(tu.Lambda, tu.nu)
+                                ln_n = orc.factor_ln(tu.Lambda, tu.nu, lbn, x)
+                                gpn = _call(rec, "evaluate_ln", lambda: pn.evaluate_ln(xj), info)
+                                if gpn is not None:
+                                    rec.close("product after normalize", gpn,
+                                              ln_n.sum(0, keepdims=True),
+                                              ns=orc.factor_ln_abs(tu.Lambda, tu.nu, lbn, x).sum(
+                                                  0, keepdims=True), detail=info,
+                                              mech=f"measure-product-after-normalize:{mk}")
                         # element-wise evaluation: component r at point r
                         xe = gen.points(rng, R1, tu.mu, tu.Sigma, far=False)
                         ge = _call(rec, "evaluate_ln[element_wise]",
